@@ -86,6 +86,10 @@ def spline_scenarios(tier, what):
         for n in ns + ([8] if tier == "thorough" else []):
             out.append("spline n=%d bc=Periodic extrap=1 seed=%d" % (n, n % 5))
             out.append("spline n=%d lanes=2 bc=Periodic extrap=1 seed=%d" % (n, (n + 2) % 5))
+            # the same periodic splines on axes far from the origin (first knot beyond one period on either side)
+            out.append("spline n=%d bc=Periodic extrap=1 seed=%d off=37.5" % (n, (n + 1) % 5))
+            out.append("spline n=%d bc=Periodic extrap=1 seed=%d off=-41.25" % (n, n % 5))
+            out.append("spline n=%d lanes=2 bc=Periodic extrap=1 seed=%d off=1003.5" % (n, (n + 3) % 5))
     return out
 
 
